@@ -83,6 +83,18 @@ CLAIMED = {
         "Trusts Python's MRO as the meaning of 'base classes first'; order is judged only among names defined once.",
         "3.5",
     ),
+    "C14": (
+        "Hypothesis-generated on-disk packages (modules, classes with MODE_NAME/DISABLED/DEFAULT, duplicates, failing imports/constructors, missing/implicit package) x FMS x selection source x start/periodic/disable/select/run() operation lists; oracle = expected construction outcome, constructed set, modes, chooser/Auto List contents and per-period lifecycle computed from the description",
+        "Generated search over package layouts, fault kinds and call histories with expectations derived from the layout description; run() is driven in a thread through the DS simulator with the harness-owned clock.",
+        "Trusts the DS simulator for the FMS flag and NetworkTables for reading the chooser; sibling-module imports of mode classes are not generated.",
+        "3.6",
+    ),
+    "C16": (
+        "Hypothesis-generated periods x loop-body duration patterns (fractions, exact landings, 1 us before/after the alarm, overruns of several periods) x early free; worker thread calls wait(), the harness owns the paused FPGA clock; oracle = alarm grid read from the simulator, return times, 1 us-early probes, release after free",
+        "Generated search over schedules with a harness-owned clock, so the k-th return time is a function of the case alone; the grid is read back from the simulator after every wait.",
+        "Trusts the HAL simulator's notifier implementation; period quantisation may be floor or round; handle leaks after free are not observable and not judged.",
+        "3.8",
+    ),
     "C15": (
         "Hypothesis-generated StatefulAutonomous classes (chains/loops/branches, 16 signatures, scripts) x 1-3 autonomous periods with dyadic tm sequences x dashboard edits between and during periods; oracle = SpecSA reference model, exact comparison of the whole argument trace",
         "Generated search over mode definitions and multi-period tm schedules against a reference model; all times are multiples of 1/64 s so the comparison needs no tolerance.",
